@@ -70,7 +70,8 @@ func randStruct(rng *rand.Rand, o TypeOpts, depth int) reflect.Type {
 	allUnexp := o.Unexported && rng.Intn(15) == 0
 	for i := 0; i < n; i++ {
 		ft := randFieldType(rng, o, depth)
-		f := reflect.StructField{Name: fmt.Sprintf("F%d", i), Type: ft}
+		// first letters from both ends of the alphabet (an exported name is one that starts with A..Z)
+		f := reflect.StructField{Name: fmt.Sprintf("%c%d", "FFFAZYB"[rng.Intn(7)], i), Type: ft}
 		if o.Unexported && (allUnexp || rng.Intn(7) == 0 || (i == 0 && rng.Intn(4) == 0)) {
 			f.Name = fmt.Sprintf("u%d", i)
 			f.PkgPath = unexportedPkg
